@@ -63,12 +63,80 @@ func domSexp(n *html.Node) string {
 	return b.String()
 }
 
+// pullInterleaved reads two documents with two parsers that are alive at the same time, one event from
+// each in turn (the situation of two concurrent ReadHtml calls, made deterministic): every parser must
+// deliver what it delivers alone (seeded change C17-8 shared one attribute buffer between all parsers)
+func pullInterleaved(a, b string) string {
+	return guard(func() string {
+		alone := func(s string) string {
+			p, err := parser.ReadHtml(strings.NewReader(s))
+			if err != nil {
+				return "err"
+			}
+			evs, failed, _ := PullAll(p, 1000000)
+			if failed {
+				return "err"
+			}
+			return evsSexp(evs)
+		}
+		wantA, wantB := alone(a), alone(b)
+		pa, ea := parser.ReadHtml(strings.NewReader(a))
+		pb, eb := parser.ReadHtml(strings.NewReader(b))
+		if ea != nil || eb != nil {
+			return "ok"
+		}
+		var evA, evB []Ev
+		doneA, doneB := false, false
+		step := func(p parser.Parser, evs *[]Ev, done *bool) {
+			if *done {
+				return
+			}
+			n, isEnd, err := p.Pull()
+			if err != nil {
+				*done = true
+				return
+			}
+			if isEnd {
+				*evs = append(*evs, EvClose())
+			} else {
+				*evs = append(*evs, evOfNode(n))
+			}
+		}
+		for i := 0; i < 2000000 && !(doneA && doneB); i++ {
+			step(pa, &evA, &doneA)
+			step(pb, &evB, &doneB)
+		}
+		if wantA != "err" && evsSexp(evA) != wantA {
+			return "first-document-differs-when-read-interleaved"
+		}
+		if wantB != "err" && evsSexp(evB) != wantB {
+			return "second-document-differs-when-read-interleaved"
+		}
+		return "ok"
+	})
+}
+
 func GenHtmlFamily(w *Writer, r *Rng, t Tier) error {
 	n := t.Docs * t.PerDoc / 2
+	for i := 0; i < n/10+4; i++ {
+		cr := r.Fork()
+		a := "<!DOCTYPE html>" + GenHtml(cr, 1+cr.Intn(20))
+		b := "<!DOCTYPE html>" + GenHtml(cr, 1+cr.Intn(20))
+		got := pullInterleaved(a, b)
+		w.Line("fuzz", okOnly(got == "ok", got), map[string]interface{}{"k": "fuzz", "fam": "html-interleaved", "text": a + "\n----\n" + b, "outcome": got, "expect": "ok", "n": 3})
+	}
 	for i := 0; i < n; i++ {
 		cr := r.Fork()
 		text := GenHtml(cr, 1+cr.Intn(30))
 		fam := "html"
+		if i < 8 {
+			// a long run of elements that all END at the same point, and a node after it (seeded change
+			// C17-9 counted the pending end events in eight bits)
+			depth := []int{254, 255, 256, 257, 300, 511, 512, 600}[i]
+			tag := Pick(cr, []string{"div", "section", "span"})
+			text = strings.Repeat("<"+tag+">", depth) + "x" + strings.Repeat("</"+tag+">", depth) + Pick(cr, []string{"<!--after-->", "<p>after</p>", "tail"})
+			fam = "html-deep"
+		}
 		switch cr.Intn(10) {
 		case 0:
 			fam = "html-nodoctype"
